@@ -407,6 +407,9 @@ class FullEngine(Engine):
             a = self.expr(A[0], st); return PV(a.t, If(a.term >= 0, a.term, -a.term))
         if name == 'bool':
             t = self.cond(A[0], st); return PV(BOOL, BoolVal(t) if isinstance(t, bool) else t)
+        if name == 'round' and A:
+            a0 = self.expr(A[0], st)
+            if self.is_opq(a0): return self.opq(st, 'fn_round', [a0] + [PV(OPQ, self.coerce(st, self.expr(x, st), OPQ)) for x in A[1:]])          # round(<library number>, n): a library value
         if name == 'tqdm': return self.expr(A[0], st, hint)
         ctors = [sp for sp in self.specs.values() if sp.constructs is not None and sp.constructs.name == name]
         if ctors: return self.call_constructor(ctors, c, st)
@@ -502,6 +505,18 @@ class FullEngine(Engine):
             # result object is modelled by that value itself, the call is checked against g's contract (g must be `deterministic`: its result is a function of its arguments).
             if f.attr == 'apply_async' and len(c.args) == 2 and isinstance(c.args[0], ast.Name) and isinstance(c.args[1], ast.Tuple) and not c.keywords:
                 return self.call_name(ast.Call(func=c.args[0], args=list(c.args[1].elts), keywords=[]), c.args[0].id, st, hint)
+            if (f.attr == 'imap_unordered' and len(c.args) == 2 and not c.keywords and isinstance(c.args[0], ast.Call) and isinstance(c.args[0].func, ast.Name) and c.args[0].func.id == 'partial'
+                    and len(c.args[0].args) == 1 and isinstance(c.args[0].args[0], ast.Name)):
+                # ASSUMED contract of multiprocessing (option pool_model): pool.imap_unordered(partial(g, **kw), xs) yields the values g(x, **kw), x in xs, in an ARBITRARY order:
+                # a list R with len(R) == len(xs) holding exactly the members of [g(x, **kw) for x in xs] (duplicate-free when that list is).  g must be `deterministic`.
+                comp = ast.ListComp(elt=ast.Call(func=c.args[0].args[0], args=[ast.Name(id='pool_x__', ctx=ast.Load())], keywords=c.args[0].keywords),
+                                    generators=[ast.comprehension(target=ast.Name(id='pool_x__', ctx=ast.Store()), iter=c.args[1], ifs=[], is_async=0)])
+                ast.fix_missing_locations(comp)
+                r0 = self.expr(comp, st, hint=hint)
+                if not (isinstance(r0, PRef) and isinstance(r0.t, TList)): raise Unsupported('imap_unordered result type')
+                th = r0.t.th(); R0 = self.term(st, r0); R = FreshConst(th.S, 'unordered'); x = FreshConst(th.E, 'x')
+                st.pc += [th.Len(R) == th.Len(R0), ForAll([x], th.Has(R, x) == th.Has(R0, x), patterns=[th.Has(R, x)]), Implies(th.Nodup(R0), th.Nodup(R))]
+                return self.new_root(st, r0.t, R)
             raise Unsupported('pool method ' + ast.unparse(c)[:60])
         recv = self.expr(f.value, st)
         if isinstance(recv, PRef): self.need_not_none(st, recv, ast.unparse(f.value))
@@ -566,7 +581,7 @@ class FullEngine(Engine):
                 for kt, vt, v in pairs:
                     self.dict_set(st, recv, kt, vt, value=v); self.escape(st, v, 'dict entry')
                 return PNone()
-            o = self.expr(a, st)
+            o = self.expr(a, st, hint=t)
             if isinstance(o, PRef) and isinstance(o.t, TDict) and o.t == t:
                 ot = self.term(st, o); R = FreshConst(t.sort(), 'upd'); x = FreshConst(t.k.sort(), 'x')
                 # keys: old keys in order, then the new ones of `o` in o's order; values: o's where present
